@@ -70,9 +70,13 @@ def _one(args):
         shutil.rmtree(tmp, ignore_errors=True)
 
 
-def run(root="/repo", pid: Optional[str] = None, twins: Optional[List[str]] = None, jobs=None) -> Dict:
+def run(root="/repo", pid: Optional[str] = None, twins: Optional[List[str]] = None, jobs=None, twin_dir: Optional[str] = None) -> Dict:
     work = []
-    for tw, pf in patch_twins():
+    src = patch_twins()
+    if twin_dir:
+        src = [(k, os.path.join(twin_dir, k, "patch.diff")) for k in sorted(os.listdir(twin_dir))
+               if os.path.exists(os.path.join(twin_dir, k, "patch.diff"))]
+    for tw, pf in src:
         if twins and not any(tw.startswith(t) for t in twins):
             continue
         for m in M.MUTANTS:
@@ -100,8 +104,9 @@ if __name__ == "__main__":
     import sys
     args = sys.argv[1:]
     pid = next((a for a in args if a.startswith("C") and len(a) == 3 and a[1:].isdigit()), None)
-    tw = [a for a in args if a != pid]
-    r = run(pid=pid, twins=tw or None)
+    tdir = next((a.split("=", 1)[1] for a in args if a.startswith("--dir=")), None)
+    tw = [a for a in args if a != pid and not a.startswith("--dir=")]
+    r = run(pid=pid, twins=tw or None, twin_dir=tdir)
     for x in r["masked_list"]:
         print("MASKED   ", x)
     for x in r["undecided_list"]:
